@@ -38,6 +38,12 @@ write_json() { # stage strings results tokens utf8 carets multibyte violations_j
 EOF
 }
 
+if [ "${C03_MIRI:-on}" = "off" ]; then   # development knob; an explicit INCONCLUSIVE, never a pass
+  for st in miri-stacked miri-tree; do
+    write_json "$st" 0 0 0 0 0 0 "" "\"Miri stage disabled by C03_MIRI=off\"" ""
+  done
+  exit 0
+fi
 if [ ! -d "$CRATE" ]; then
   for st in miri-stacked miri-tree; do
     write_json "$st" 0 0 0 0 0 0 "" "\"crate $CRATE not found\"" ""
